@@ -966,6 +966,13 @@ func prepareDeltaBuild(options Options, repository *git.Repository) (repos map[f
 			return nil, nil, nil, fmt.Errorf("getting current git tree for branch %q: %w", b, err)
 		}
 
+		// The ignore file is not applied to the paths a delta build picks up
+		// (see the loop over changes below): a branch that has one needs a
+		// normal build.
+		if _, err := tree.File(ignore.IgnoreFile); err == nil {
+			return nil, nil, nil, fmt.Errorf("branch %q has a %q file, which is not yet supported in delta builds", b, ignore.IgnoreFile)
+		}
+
 		branchToCurrentTree[b] = tree
 	}
 
@@ -996,6 +1003,13 @@ func prepareDeltaBuild(options Options, repository *git.Repository) (repos map[f
 		}
 
 		for i, c := range changes {
+			// A path that turns from a file into a gitlink (or back) has no file
+			// on one side: Files() reports neither side, and the stale document
+			// would survive. Leave such histories to a normal build.
+			if c.From.Name != "" && c.To.Name != "" && c.From.TreeEntry.Mode.IsFile() != c.To.TreeEntry.Mode.IsFile() {
+				return nil, nil, nil, fmt.Errorf("change #%d: %q changes between a file and a non-file entry, which is not supported in delta builds", i, c.To.Name)
+			}
+
 			oldFile, newFile, err := c.Files()
 			if err != nil {
 				return nil, nil, nil, fmt.Errorf("change #%d: getting files before and after change: %w", i, err)
